@@ -783,8 +783,8 @@ class _PreRead(PathAnalysis):
                 if x[1] == "Hread":
                     r = True
                     self.reads += 1
-                elif x[1] == "Hseek":
-                    r = False
+                elif x[1] == "Hseek" and len(x[3]) > 2 and is_int(x[3][2]) and int_val(x[3][2]) == 0:
+                    r = False  # only an absolute seek (DF_START) to block_offset undoes the move of the read
             elif x[0] == "asg" and (mem_field(x[2]) or (0, 0))[1] == "mode" and is_int(x[3]):
                 w = int_val(x[3]) == ord("w")
         return (r, w)
@@ -797,7 +797,7 @@ def rule_preread_then_seek(ctx):
     """PREREADSEEK (C05): a bit file in write mode keeps a block of the element in its buffer and writes the buffer back at
     `block_offset` with a plain Hwrite on the underlying access element.  When the buffer is filled by *reading* that block
     (rewriting an existing element), the read moves the access element to the end of the block; a routine that leaves the bit
-    file in write mode must have moved it back (Hseek) after its last read, or the first flush lands one block further on."""
+    file in write mode must have moved it back (an absolute Hseek, origin DF_START) after its last read, or the first flush lands one block further on."""
     prog = ctx.prog
     n = 0
     for f in prog.lib_funcs():
